@@ -88,6 +88,17 @@ func assertInit(info *types.Info, ifs *ast.IfStmt) (types.Type, types.Object, bo
 	}
 	ta, ok := ast.Unparen(as.Rhs[0]).(*ast.TypeAssertExpr)
 	if !ok || ta.Type == nil {
+		// `if v, ok := asT(x); ok`: a helper that is nothing but the assertion
+		if call, isCall := ast.Unparen(as.Rhs[0]).(*ast.CallExpr); isCall && assertionHelperType != nil {
+			if typ, is := assertionHelperType(info, call); is {
+				v, ok1 := as.Lhs[0].(*ast.Ident)
+				okID, ok2 := as.Lhs[1].(*ast.Ident)
+				cond, ok3 := ast.Unparen(ifs.Cond).(*ast.Ident)
+				if ok1 && ok2 && ok3 && info.Uses[cond] != nil && info.Uses[cond] == info.Defs[okID] {
+					return typ, info.Defs[v], true
+				}
+			}
+		}
 		return nil, nil, false
 	}
 	v, ok1 := as.Lhs[0].(*ast.Ident)
@@ -101,4 +112,89 @@ func assertInit(info *types.Info, ifs *ast.IfStmt) (types.Type, types.Object, bo
 		return nil, nil, false
 	}
 	return tv.Type, info.Defs[v], true
+}
+
+// assertionHelperType is set by a check that has the package at hand: for a call of a same-package function whose whole
+// effect is `v, ok := param.(T)` handed back as (v, true) when it holds and (zero, false) when it does not, the type T.
+var assertionHelperType func(info *types.Info, call *ast.CallExpr) (types.Type, bool)
+
+// pureAssertionHelper builds that hook for the functions of one package.
+func pureAssertionHelper(decls map[string]*ast.FuncDecl, pkg *types.Package) func(info *types.Info, call *ast.CallExpr) (types.Type, bool) {
+	return func(info *types.Info, call *ast.CallExpr) (types.Type, bool) {
+		fn := calleeOf(info, call)
+		if fn == nil || fn.Pkg() != pkg || len(call.Args) != 1 {
+			return nil, false
+		}
+		fd := decls[declKeyOf(fn)]
+		if fd == nil || fd.Body == nil || fd.Recv != nil || fd.Type.Params == nil || len(fd.Type.Params.List) != 1 || len(fd.Type.Params.List[0].Names) != 1 {
+			return nil, false
+		}
+		param := info.Defs[fd.Type.Params.List[0].Names[0]]
+		var typ types.Type
+		var bound, okVar types.Object
+		good := true
+		yes, no := 0, 0
+		ast.Inspect(fd.Body, func(n ast.Node) bool {
+			switch x := n.(type) {
+			case *ast.AssignStmt:
+				if len(x.Lhs) == 2 && len(x.Rhs) == 1 {
+					if ta, ok := ast.Unparen(x.Rhs[0]).(*ast.TypeAssertExpr); ok && ta.Type != nil {
+						if id, ok := ast.Unparen(ta.X).(*ast.Ident); ok && info.Uses[id] == param && typ == nil {
+							if tv, has := info.Types[ta.Type]; has {
+								typ = tv.Type
+								if v, ok := x.Lhs[0].(*ast.Ident); ok {
+									bound = info.ObjectOf(v)
+								}
+								if o, ok := x.Lhs[1].(*ast.Ident); ok {
+									okVar = info.ObjectOf(o)
+								}
+								return true
+							}
+						}
+					}
+				}
+				good = false
+			case *ast.ReturnStmt:
+				if len(x.Results) != 2 {
+					good = false
+					return true
+				}
+				tv, has := info.Types[x.Results[1]]
+				switch {
+				case has && tv.Value != nil && tv.Value.String() == "true":
+					// (v, true) under the assertion's ok
+					id, ok := ast.Unparen(x.Results[0]).(*ast.Ident)
+					holds := false
+					for _, lit := range controlConds(fd.Body, x) {
+						if c, isId := ast.Unparen(lit.Expr).(*ast.Ident); isId && !lit.Neg && info.Uses[c] == okVar {
+							holds = true
+						}
+					}
+					if !ok || info.Uses[id] != bound || !holds {
+						good = false
+					}
+					yes++
+				case has && tv.Value != nil && tv.Value.String() == "false":
+					no++
+				default:
+					// `return v, ok`
+					id0, ok0 := ast.Unparen(x.Results[0]).(*ast.Ident)
+					id1, ok1 := ast.Unparen(x.Results[1]).(*ast.Ident)
+					if ok0 && ok1 && info.Uses[id0] == bound && info.Uses[id1] == okVar && bound != nil {
+						yes++
+						no++
+					} else {
+						good = false
+					}
+				}
+			case *ast.ExprStmt, *ast.IncDecStmt, *ast.GoStmt, *ast.DeferStmt, *ast.SendStmt, *ast.ForStmt, *ast.RangeStmt:
+				good = false
+			}
+			return true
+		})
+		if !good || typ == nil || yes == 0 || no == 0 {
+			return nil, false
+		}
+		return typ, true
+	}
 }
